@@ -74,12 +74,13 @@ Print Assumptions composite_maxp_values.
 (* ---- "every saved file is a valid container": the file SFNTWriter produces (C04/Model.v write_sfnt) is read back by SFNTReader
    (C20/Model.v open_sfnt / load_table): the directory is found with the version that was written and one entry per table, and
    every table's bytes are the bytes that were handed to the writer -- head apart from the four bytes of checkSumAdjustment.
-   For ANY number of tables of any sizes, in any order. *)
+   For ANY number of tables of any sizes, in any order -- a head table too short to hold the field included: the proof first
+   needed `head` to be at least 12 bytes long, and the real writer failed exactly there (it wrote the four bytes into the NEXT
+   table: defect F23, repaired in /repo; the model follows the repaired writer). *)
 From FV Require C20.Model C04.ProofsContainer.
 Theorem written_file_reads_back : forall version n ts file,
   ProofsContainer.version_ok version ->
   Forall (fun td => length (fst td) = 4%nat) ts ->
-  (forall dh, In (head_tag, dh) ts -> (12 <= length dh)%nat) ->
   write_sfnt version n ts = Ok file ->
   exists dir, C20.Model.open_sfnt file 0 = Ok (version, dir) /\ length dir = length ts /\
     forall t d, In (t, d) ts ->
